@@ -32,6 +32,22 @@ class Obj:
         return "Obj(v={!r}, items={!r}, name={!r})".format(self.v, self.items, self.name)
 
 
+class Holder:
+    """Attributes for invariant conditions; the invariant-carrying twin classes repr themselves identically."""
+
+    def __init__(self, v, w, name, items, d, n, child):
+        self.v = v
+        self.w = w
+        self.name = name
+        self.items = items
+        self.d = d
+        self.n = n
+        self.child = child
+
+    def __repr__(self):
+        return "Holder(v={!r}, w={!r}, name={!r}, items={!r}, d={!r}, n={!r})".format(self.v, self.w, self.name, self.items, self.d, self.n)
+
+
 def twice(x):
     return x * 2
 
